@@ -31,6 +31,11 @@ func scenC04(k *K) {
 		extra = []string{adv.Own.ID}
 	}
 	c := k.NewCluster(ClusterCfg{N: 2, Type: typ, Writers: []int{0}, ExtraIDs: extra})
+	if k.C.Chance(1, 2) {
+		// manual syncs may be cancelled by the application in the very quantum in which one
+		// of their block fetches completes
+		k.F.CancelRace = 3
+	}
 	W, R := c.Stores[0], c.Stores[1]
 	var foreign *entry.Entry
 	{
